@@ -185,4 +185,264 @@ example : (1 / 10 : Rat) + (1 + 2 * 0) / 10 = 1 / 5 ∧ (0 : Rat) < 10 ∧ trueG
   refine ⟨by norm_num, by norm_num, ?_⟩
   decide +kernel
 
+/-! ## Work package L3: the EG certificate for TPR / FPR / EqualizedOdds moments
+
+`eg_dp_difference_le` is generic in the event rule: its frame is "the rows of event `e`".  For the label-conditioned
+moments those are the rows of a stratum WITH label `l`, and `mean_prediction` over them is the true- resp. false-positive
+rate.  Two things are proved and one is said:
+
+ * `eg_tpr_difference_le`, `eg_fpr_difference_le`, `eg_eo_difference_le`: with the real rules (`eventOf .tpr/.fpr/.eo`,
+   with or without control features) the `mean_prediction` difference of the EXPECTED predictions on the event rows
+   obeys the certificate bound;
+ * `eg_expected_tpr_is_mixture` / `eg_expected_fpr_is_mixture`: that quantity IS the `weights_`-mixture of the stored
+   hard predictors' `true_positive_rate` / `false_positive_rate` (first-principles `tprSpec` / `fprSpec` of C03);
+ * why only expectations: the returned classifier draws ONE predictor per call (`_pmf_predict` / `predict` with a
+   random state, C10); `true_positive_rate` of a realised 0/1 prediction vector is a random variable — it is NOT a
+   function of the expected prediction vector (`true_positive_rate` rejects non-0/1 predictions, and rates of
+   different draws differ), so no almost-sure bound follows from the certificate.  Its EXPECTATION over the draw of
+   the predictor is linear in `Q` and is what the theorems bound.  For a DETERMINISTIC result (`weights_` = a unit
+   vector) the named metric itself is bounded: `eg_pure_eo_bounds`, `eg_pure_tpr_bounds`. -/
+
+/-- the certificate bound on the frame of the event rows described by a selector `P` -/
+theorem eg_event_difference_le (ev : Ev) (rows : List Row) (eps : Rat)
+    (H : Nat → List Rat) (nH : Nat) (err : Nat → Rat) (B g : Rat) (Q lam Q' : Nat → Rat)
+    (hH : ∀ t < nH, (H t).length = rows.length) (hQ : ∑ t ∈ range nH, Q t = 1) (hB : 0 < B)
+    (hgap : trueGap (momentTable ev rows 1 defaultUtil eps H nH err) B Q lam ≤ g)
+    (hl : ∀ j < (index ev rows).length, 0 ≤ lam j)
+    (hf : Feasible (momentTable ev rows 1 defaultUtil eps H nH err) Q')
+    (he0 : 0 ≤ errQ (momentTable ev rows 1 defaultUtil eps H nH err) Q)
+    (he1 : errQ (momentTable ev rows 1 defaultUtil eps H nH err) Q' ≤ 1)
+    (e : String) (P : Row → Bool) (hP : ∀ r, inE ev e r = P r) (hne : ∃ g', Observed ev rows e g') :
+    (∃ D, Fairness.run .meanpred .difference .toOverall true 1
+        (toFrame P rows (mixN rows.length Q H nH)) = .value (XR.fin D) ∧
+      0 ≤ D ∧ D ≤ eps + (1 + 2 * g) / B) ∧
+    (∃ D, Fairness.run .meanpred .difference .between true 1
+        (toFrame P rows (mixN rows.length Q H nH)) = .value (XR.fin D) ∧
+      0 ≤ D ∧ D ≤ 2 * (eps + (1 + 2 * g) / B)) := by
+  have := eg_dp_difference_le ev rows eps H nH err B g Q lam Q' hH hQ hB hgap hl hf he0 he1 e hne
+  rwa [show inE ev e = P from funext hP] at this
+
+/-- **EG(TruePositiveRateParity) ⇒ expected-TPR difference**: `mean_prediction` of the expected predictions over the
+    POSITIVES of stratum `c0` (`none`: no control features) -/
+theorem eg_tpr_difference_le (rows : List Row) (eps : Rat)
+    (H : Nat → List Rat) (nH : Nat) (err : Nat → Rat) (B g : Rat) (Q lam Q' : Nat → Rat)
+    (hH : ∀ t < nH, (H t).length = rows.length) (hQ : ∑ t ∈ range nH, Q t = 1) (hB : 0 < B)
+    (hgap : trueGap (momentTable (eventOf .tpr) rows 1 defaultUtil eps H nH err) B Q lam ≤ g)
+    (hl : ∀ j < (index (eventOf .tpr) rows).length, 0 ≤ lam j)
+    (hf : Feasible (momentTable (eventOf .tpr) rows 1 defaultUtil eps H nH err) Q')
+    (he0 : 0 ≤ errQ (momentTable (eventOf .tpr) rows 1 defaultUtil eps H nH err) Q)
+    (he1 : errQ (momentTable (eventOf .tpr) rows 1 defaultUtil eps H nH err) Q' ≤ 1)
+    (c0 : Option String)
+    (hne : ∃ g', Observed (eventOf .tpr) rows (C06.stratumEvent c0 (MomentsSrc.labelEvent 1)) g') :
+    (∃ D, Fairness.run .meanpred .difference .toOverall true 1
+        (toFrame (fun r => (r.c == c0) && (r.y == 1)) rows (mixN rows.length Q H nH)) = .value (XR.fin D) ∧
+      0 ≤ D ∧ D ≤ eps + (1 + 2 * g) / B) ∧
+    (∃ D, Fairness.run .meanpred .difference .between true 1
+        (toFrame (fun r => (r.c == c0) && (r.y == 1)) rows (mixN rows.length Q H nH)) = .value (XR.fin D) ∧
+      0 ≤ D ∧ D ≤ 2 * (eps + (1 + 2 * g) / B)) :=
+  eg_event_difference_le (eventOf .tpr) rows eps H nH err B g Q lam Q' hH hQ hB hgap hl hf he0 he1 _ _
+    (C06.tpr_selects c0) hne
+
+/-- **EG(FalsePositiveRateParity) ⇒ expected-FPR difference** over the NEGATIVES of stratum `c0` -/
+theorem eg_fpr_difference_le (rows : List Row) (eps : Rat)
+    (H : Nat → List Rat) (nH : Nat) (err : Nat → Rat) (B g : Rat) (Q lam Q' : Nat → Rat)
+    (hH : ∀ t < nH, (H t).length = rows.length) (hQ : ∑ t ∈ range nH, Q t = 1) (hB : 0 < B)
+    (hgap : trueGap (momentTable (eventOf .fpr) rows 1 defaultUtil eps H nH err) B Q lam ≤ g)
+    (hl : ∀ j < (index (eventOf .fpr) rows).length, 0 ≤ lam j)
+    (hf : Feasible (momentTable (eventOf .fpr) rows 1 defaultUtil eps H nH err) Q')
+    (he0 : 0 ≤ errQ (momentTable (eventOf .fpr) rows 1 defaultUtil eps H nH err) Q)
+    (he1 : errQ (momentTable (eventOf .fpr) rows 1 defaultUtil eps H nH err) Q' ≤ 1)
+    (c0 : Option String)
+    (hne : ∃ g', Observed (eventOf .fpr) rows (C06.stratumEvent c0 (MomentsSrc.labelEvent 0)) g') :
+    (∃ D, Fairness.run .meanpred .difference .toOverall true 1
+        (toFrame (fun r => (r.c == c0) && (r.y == 0)) rows (mixN rows.length Q H nH)) = .value (XR.fin D) ∧
+      0 ≤ D ∧ D ≤ eps + (1 + 2 * g) / B) ∧
+    (∃ D, Fairness.run .meanpred .difference .between true 1
+        (toFrame (fun r => (r.c == c0) && (r.y == 0)) rows (mixN rows.length Q H nH)) = .value (XR.fin D) ∧
+      0 ≤ D ∧ D ≤ 2 * (eps + (1 + 2 * g) / B)) :=
+  eg_event_difference_le (eventOf .fpr) rows eps H nH err B g Q lam Q' hH hQ hB hgap hl hf he0 he1 _ _
+    (C06.fpr_selects c0) hne
+
+/-- **EG(EqualizedOdds) ⇒ expected-TPR (`lab = 1`) and expected-FPR (`lab = 0`) differences** within stratum `c0` -/
+theorem eg_eo_difference_le (rows : List Row) (eps : Rat)
+    (H : Nat → List Rat) (nH : Nat) (err : Nat → Rat) (B g : Rat) (Q lam Q' : Nat → Rat)
+    (hH : ∀ t < nH, (H t).length = rows.length) (hQ : ∑ t ∈ range nH, Q t = 1) (hB : 0 < B)
+    (hgap : trueGap (momentTable (eventOf .eo) rows 1 defaultUtil eps H nH err) B Q lam ≤ g)
+    (hl : ∀ j < (index (eventOf .eo) rows).length, 0 ≤ lam j)
+    (hf : Feasible (momentTable (eventOf .eo) rows 1 defaultUtil eps H nH err) Q')
+    (he0 : 0 ≤ errQ (momentTable (eventOf .eo) rows 1 defaultUtil eps H nH err) Q)
+    (he1 : errQ (momentTable (eventOf .eo) rows 1 defaultUtil eps H nH err) Q' ≤ 1)
+    (c0 : Option String) (lab : Int) (hlab : lab = 0 ∨ lab = 1)
+    (hne : ∃ g', Observed (eventOf .eo) rows (C06.stratumEvent c0 (MomentsSrc.labelEvent lab)) g') :
+    (∃ D, Fairness.run .meanpred .difference .toOverall true 1
+        (toFrame (fun r => (r.c == c0) && (r.y == lab)) rows (mixN rows.length Q H nH)) = .value (XR.fin D) ∧
+      0 ≤ D ∧ D ≤ eps + (1 + 2 * g) / B) ∧
+    (∃ D, Fairness.run .meanpred .difference .between true 1
+        (toFrame (fun r => (r.c == c0) && (r.y == lab)) rows (mixN rows.length Q H nH)) = .value (XR.fin D) ∧
+      0 ≤ D ∧ D ≤ 2 * (eps + (1 + 2 * g) / B)) :=
+  eg_event_difference_le (eventOf .eo) rows eps H nH err B g Q lam Q' hH hQ hB hgap hl hf he0 he1 _ _
+    (C06.eo_selects c0 lab hlab) hne
+
+/-- **what `mean_prediction` over the positives of the expected predictions IS**: the `Q`-mixture of the
+    `true_positive_rate`s (C03's first-principles `tprSpec`, on the frame of the rows selected by `P`, all labels) of
+    the stored hard predictors, i.e. the expectation of the realised TPR over the draw of the predictor -/
+theorem eg_expected_tpr_is_mixture (P : Row → Bool) (rows : List Row) (Q : Nat → Rat) (H : Nat → List Rat) (n : Nat)
+    (hH : ∀ t < n, (H t).length = rows.length) (hh : ∀ t < n, Hard (H t)) :
+    meanPredSpec (selDat (fun r => P r && (r.y == 1)) rows (mixN rows.length Q H n))
+      = ∑ t ∈ range n, Q t * Fairness.tprSpec (selDat P rows (H t)) := by
+  rw [meanPredSpec_selDat _ rows _ (mixN_length _ _ _ _ hH), meanOn_mixN _ rows Q H n hH]
+  apply Finset.sum_congr rfl
+  intro t ht
+  have ht' := Finset.mem_range.mp ht
+  rw [tprSpec_selDat P rows (H t) (hH t ht') (hh t ht')]
+
+theorem eg_expected_fpr_is_mixture (P : Row → Bool) (rows : List Row) (Q : Nat → Rat) (H : Nat → List Rat) (n : Nat)
+    (hH : ∀ t < n, (H t).length = rows.length) (hh : ∀ t < n, Hard (H t)) :
+    meanPredSpec (selDat (fun r => P r && (r.y == 0)) rows (mixN rows.length Q H n))
+      = ∑ t ∈ range n, Q t * Fairness.fprSpec (selDat P rows (H t)) := by
+  rw [meanPredSpec_selDat _ rows _ (mixN_length _ _ _ _ hH), meanOn_mixN _ rows Q H n hH]
+  apply Finset.sum_congr rfl
+  intro t ht
+  have ht' := Finset.mem_range.mp ht
+  rw [fprSpec_selDat P rows (H t) (hH t ht') (hh t ht')]
+
+theorem sum_unit (i n : Nat) (hi : i < n) : ∑ t ∈ range n, unit i t = 1 := by
+  unfold unit
+  rw [Finset.sum_ite_eq' (range n) i (fun _ => (1 : Rat))]
+  simp [hi]
+
+/-- **deterministic result** (`weights_` is the unit vector of predictor `i`): the certificate bounds the NAMED metric
+    `equalized_odds_difference` of that hard predictor, with or without control features -/
+theorem eg_pure_eo_bounds (rows : List Row) (eps : Rat)
+    (H : Nat → List Rat) (nH : Nat) (err : Nat → Rat) (B g : Rat) (lam Q' : Nat → Rat) (i : Nat) (hi : i < nH)
+    (hH : ∀ t < nH, (H t).length = rows.length) (hB : 0 < B)
+    (hgap : trueGap (momentTable (eventOf .eo) rows 1 defaultUtil eps H nH err) B (unit i) lam ≤ g)
+    (hl : ∀ j < (index (eventOf .eo) rows).length, 0 ≤ lam j)
+    (hf : Feasible (momentTable (eventOf .eo) rows 1 defaultUtil eps H nH err) Q')
+    (he0 : 0 ≤ errQ (momentTable (eventOf .eo) rows 1 defaultUtil eps H nH err) (unit i))
+    (he1 : errQ (momentTable (eventOf .eo) rows 1 defaultUtil eps H nH err) Q' ≤ 1)
+    (c0 : Option String) (hh : Hard (H i)) (hy : ∀ r ∈ rows, r.y = 0 ∨ r.y = 1)
+    (hne : rows.filter (fun r => r.c == c0) ≠ [])
+    (hcov1 : ∀ r ∈ rows, (r.c == c0) = true → ∃ r2 ∈ rows, (r2.c == c0) = true ∧ r2.g = r.g ∧ r2.y = 1)
+    (hcov0 : ∀ r ∈ rows, (r.c == c0) = true → ∃ r2 ∈ rows, (r2.c == c0) = true ∧ r2.g = r.g ∧ r2.y = 0) :
+    (∃ D, Fairness.eodds "equalized_odds_difference" .toOverall .worstCase 1 (toFrame (fun r => r.c == c0) rows (H i))
+        = some (.value (XR.fin D)) ∧ 0 ≤ D ∧ D ≤ eps + (1 + 2 * g) / B) ∧
+    (∃ D, Fairness.eodds "equalized_odds_difference" .between .worstCase 1 (toFrame (fun r => r.c == c0) rows (H i))
+        = some (.value (XR.fin D)) ∧ 0 ≤ D ∧ D ≤ 2 * (eps + (1 + 2 * g) / B)) := by
+  have hc := eg_constraint_of_certificate (eventOf .eo) rows 1 defaultUtil eps H nH err B g (unit i) lam Q' hH
+    (sum_unit i nH hi) hB hgap hl hf he0 he1
+  rw [mixN_unit rows.length H nH i hi hH] at hc
+  exact C06.eodds_difference_le_of_constraint (eventOf .eo) rows (H i) _
+    (C06.stratumEvent c0 (MomentsSrc.labelEvent 1)) (C06.stratumEvent c0 (MomentsSrc.labelEvent 0))
+    (fun r => r.c == c0) (hH i hi) hh hy hne
+    (C06.eo_selects c0 1 (Or.inr rfl)) (C06.eo_selects c0 0 (Or.inl rfl)) hcov1 hcov0 hc
+
+/-- the same for TruePositiveRateParity ⇒ `equal_opportunity_difference` -/
+theorem eg_pure_tpr_bounds (rows : List Row) (eps : Rat)
+    (H : Nat → List Rat) (nH : Nat) (err : Nat → Rat) (B g : Rat) (lam Q' : Nat → Rat) (i : Nat) (hi : i < nH)
+    (hH : ∀ t < nH, (H t).length = rows.length) (hB : 0 < B)
+    (hgap : trueGap (momentTable (eventOf .tpr) rows 1 defaultUtil eps H nH err) B (unit i) lam ≤ g)
+    (hl : ∀ j < (index (eventOf .tpr) rows).length, 0 ≤ lam j)
+    (hf : Feasible (momentTable (eventOf .tpr) rows 1 defaultUtil eps H nH err) Q')
+    (he0 : 0 ≤ errQ (momentTable (eventOf .tpr) rows 1 defaultUtil eps H nH err) (unit i))
+    (he1 : errQ (momentTable (eventOf .tpr) rows 1 defaultUtil eps H nH err) Q' ≤ 1)
+    (c0 : Option String) (hh : Hard (H i)) (hy : ∀ r ∈ rows, r.y = 0 ∨ r.y = 1)
+    (hne : rows.filter (fun r => r.c == c0) ≠ [])
+    (hcov : ∀ r ∈ rows, (r.c == c0) = true → ∃ r2 ∈ rows, (r2.c == c0) = true ∧ r2.g = r.g ∧ r2.y = 1) :
+    (∃ D, Fairness.named "equal_opportunity_difference" .toOverall 1 (toFrame (fun r => r.c == c0) rows (H i))
+        = some (.value (XR.fin D)) ∧ 0 ≤ D ∧ D ≤ eps + (1 + 2 * g) / B) ∧
+    (∃ D, Fairness.named "equal_opportunity_difference" .between 1 (toFrame (fun r => r.c == c0) rows (H i))
+        = some (.value (XR.fin D)) ∧ 0 ≤ D ∧ D ≤ 2 * (eps + (1 + 2 * g) / B)) := by
+  have hc := eg_constraint_of_certificate (eventOf .tpr) rows 1 defaultUtil eps H nH err B g (unit i) lam Q' hH
+    (sum_unit i nH hi) hB hgap hl hf he0 he1
+  rw [mixN_unit rows.length H nH i hi hH] at hc
+  exact C06.eopp_difference_le_of_constraint (eventOf .tpr) rows (H i) _
+    (C06.stratumEvent c0 (MomentsSrc.labelEvent 1)) (fun r => r.c == c0) (hH i hi) hh hy hne
+    (C06.tpr_selects c0) hcov hc
+
+/-! ### non-vacuity: EqualizedOdds, 8 rows, two hard predictors, eps = 1/10, B = 10 -/
+
+def yRows : List Row :=
+  [⟨1, "a", none⟩, ⟨1, "a", none⟩, ⟨0, "a", none⟩, ⟨0, "a", none⟩, ⟨1, "b", none⟩, ⟨1, "b", none⟩, ⟨0, "b", none⟩, ⟨0, "b", none⟩]
+/-- h0 = the labels on group a only (TPR a = 1, b = 0; FPR 0), h1 = all zero -/
+def yH : Nat → List Rat := fun t => if t = 0 then [1, 1, 0, 0, 0, 0, 0, 0] else [0, 0, 0, 0, 0, 0, 0, 0]
+def yErr : Nat → Rat := vec [1/4, 1/2]
+def yT : Table := momentTable (eventOf .eo) yRows 1 defaultUtil (1/10) yH 2 yErr
+def yQ : Nat → Rat := vec [1/5, 4/5]
+def yLam : Nat → Rat := vec [0, 0, 0, 0, 0, 0, 0, 0]
+
+example : (∀ t < 2, (yH t).length = yRows.length) ∧ (∀ t < 2, Hard (yH t)) ∧ ∑ t ∈ range 2, yQ t = 1 := by decide +kernel
+example : GammaLe (eventOf .eo) yRows 1 defaultUtil (mixN yRows.length yQ yH 2) (1/10) := by decide +kernel
+example : ∃ g', Observed (eventOf .eo) yRows (C06.stratumEvent none (MomentsSrc.labelEvent 1)) g' :=
+  ⟨"a", ⟨1, "a", none⟩, by decide +kernel, by decide +kernel, rfl⟩
+/-- expected TPR of group a = 1/5·1 + 4/5·0, of b = 0, overall 1/10: the between-groups difference of the expected
+    TPRs is 1/5 = 2·eps: the factor 2 is attained by the mixture -/
+example : Fairness.run .meanpred .difference .between true 1
+    (toFrame (fun r => (r.c == none) && (r.y == 1)) yRows (mixN yRows.length yQ yH 2)) = .value (XR.fin (1/5)) := by
+  decide +kernel
+example : meanPredSpec (selDat (fun r => (r.g == "a") && (r.y == 1)) yRows (mixN yRows.length yQ yH 2)) = 1/5 ∧
+    ∑ t ∈ range 2, yQ t * Fairness.tprSpec (selDat (fun r => r.g == "a") yRows (yH t)) = 1/5 := by decide +kernel
+theorem yFeasible : Feasible yT yQ :=
+  ⟨by decide +kernel, fun i hi => by
+      have : i = 0 ∨ i = 1 := by have : i < 2 := hi; omega
+      rcases this with rfl | rfl <;> decide +kernel,
+    fun j hj => by
+      have : j < 8 := hj
+      have : j = 0 ∨ j = 1 ∨ j = 2 ∨ j = 3 ∨ j = 4 ∨ j = 5 ∨ j = 6 ∨ j = 7 := by omega
+      rcases this with rfl | rfl | rfl | rfl | rfl | rfl | rfl | rfl <;> decide +kernel⟩
+example : (∀ j < (index (eventOf .eo) yRows).length, 0 ≤ yLam j) ∧ 0 ≤ errQ yT yQ ∧ errQ yT yQ ≤ 1 := by decide +kernel
+example : trueGap yT 10 yQ yLam ≤ 1/5 ∧ trueGap yT 10 (unit 1) yLam ≤ 1/4 ∧ 0 ≤ errQ yT (unit 1) := by decide +kernel
+/-- every hypothesis of `eg_eo_difference_le` at once (`g = 1/5`, `B = 10`) -/
+example : ∃ D, Fairness.run .meanpred .difference .between true 1
+      (toFrame (fun r => (r.c == none) && (r.y == 1)) yRows (mixN yRows.length yQ yH 2)) = .value (XR.fin D) ∧
+    0 ≤ D ∧ D ≤ 2 * (1/10 + (1 + 2 * (1/5)) / 10) :=
+  (eg_eo_difference_le yRows (1/10) yH 2 yErr 10 (1/5) yQ yLam yQ (by decide +kernel) (by decide +kernel) (by norm_num)
+    (by decide +kernel) (by decide +kernel) yFeasible (by decide +kernel) (by decide +kernel) none 1 (Or.inr rfl)
+    ⟨"a", ⟨1, "a", none⟩, by decide +kernel, by decide +kernel, rfl⟩).2
+/-- every hypothesis of `eg_pure_eo_bounds` at once: the deterministic result `unit 1` (the all-zero predictor) -/
+example : ∃ D, Fairness.eodds "equalized_odds_difference" .between .worstCase 1 (toFrame (fun r => r.c == none) yRows (yH 1))
+      = some (.value (XR.fin D)) ∧ 0 ≤ D ∧ D ≤ 2 * (1/10 + (1 + 2 * (1/4)) / 10) :=
+  (eg_pure_eo_bounds yRows (1/10) yH 2 yErr 10 (1/4) yLam yQ 1 (by decide) (by decide +kernel) (by norm_num)
+    (by decide +kernel) (by decide +kernel) yFeasible (by decide +kernel) (by decide +kernel) none (by decide +kernel)
+    (by decide +kernel) (by decide +kernel) (by decide +kernel) (by decide +kernel)).2
+
+/-- **deterministic result, ErrorRateParity**: the certificate bounds `accuracy_score_difference` /
+    `zero_one_loss_difference` of the returned hard predictor (`weights_` = unit vector `i`) -/
+theorem eg_pure_erp_bounds (rows : List Row) (eps : Rat)
+    (H : Nat → List Rat) (nH : Nat) (err : Nat → Rat) (B g : Rat) (lam Q' : Nat → Rat) (i : Nat) (hi : i < nH)
+    (hH : ∀ t < nH, (H t).length = rows.length) (hB : 0 < B)
+    (hgap : trueGap (momentTable (eventOf .erp) rows 1 erpUtil eps H nH err) B (unit i) lam ≤ g)
+    (hl : ∀ j < (index (eventOf .erp) rows).length, 0 ≤ lam j)
+    (hf : Feasible (momentTable (eventOf .erp) rows 1 erpUtil eps H nH err) Q')
+    (he0 : 0 ≤ errQ (momentTable (eventOf .erp) rows 1 erpUtil eps H nH err) (unit i))
+    (he1 : errQ (momentTable (eventOf .erp) rows 1 erpUtil eps H nH err) Q' ≤ 1)
+    (c0 : Option String) (hh : Hard (H i)) (hy : ∀ r ∈ rows, r.y = 0 ∨ r.y = 1)
+    (hne : rows.filter (fun r => r.c == c0) ≠ []) :
+    (∃ D, Fairness.generated "accuracy_score_difference" .toOverall 1 (toFrame (fun r => r.c == c0) rows (H i))
+        = some (some (.value (XR.fin D))) ∧ 0 ≤ D ∧ D ≤ eps + (1 + 2 * g) / B) ∧
+    (∃ D, Fairness.generated "accuracy_score_difference" .between 1 (toFrame (fun r => r.c == c0) rows (H i))
+        = some (some (.value (XR.fin D))) ∧ 0 ≤ D ∧ D ≤ 2 * (eps + (1 + 2 * g) / B)) := by
+  have hc := eg_constraint_of_certificate (eventOf .erp) rows 1 erpUtil eps H nH err B g (unit i) lam Q' hH
+    (sum_unit i nH hi) hB hgap hl hf he0 he1
+  rw [mixN_unit rows.length H nH i hi hH] at hc
+  exact (C06.erp_constraint_bounds rows (H i) _ c0 (hH i hi) hh hy hne hc).1
+
+/-! non-vacuity: ErrorRateParity on `yRows`; h0 = the labels (error 0 everywhere), h1 = all zero (error 1/2 in both groups);
+    both are feasible with slack 0, the deterministic result `unit 0` has gap 0 against λ = 0 -/
+def zH : Nat → List Rat := fun t => if t = 0 then [1, 1, 0, 0, 1, 1, 0, 0] else [0, 0, 0, 0, 0, 0, 0, 0]
+def zT : Table := momentTable (eventOf .erp) yRows 1 erpUtil (1/10) zH 2 (vec [0, 1/2])
+theorem zFeasible : Feasible zT (unit 0) :=
+  ⟨by decide +kernel, fun i hi => by
+      have : i = 0 ∨ i = 1 := by have : i < 2 := hi; omega
+      rcases this with rfl | rfl <;> decide +kernel,
+    fun j hj => by
+      have : j < 4 := hj
+      have : j = 0 ∨ j = 1 ∨ j = 2 ∨ j = 3 := by omega
+      rcases this with rfl | rfl | rfl | rfl <;> decide +kernel⟩
+example : ∃ D, Fairness.generated "accuracy_score_difference" .between 1 (toFrame (fun r => r.c == none) yRows (zH 0))
+      = some (some (.value (XR.fin D))) ∧ 0 ≤ D ∧ D ≤ 2 * (1/10 + (1 + 2 * 0) / 10) :=
+  (eg_pure_erp_bounds yRows (1/10) zH 2 (vec [0, 1/2]) 10 0 (vec [0, 0, 0, 0]) (unit 0) 0 (by decide) (by decide +kernel) (by norm_num)
+    (by decide +kernel) (by decide +kernel) zFeasible (by decide +kernel) (by decide +kernel) none (by decide +kernel)
+    (by decide +kernel) (by decide +kernel)).2
+
 end C08
